@@ -261,6 +261,46 @@ def check_from_receiver(failures, counters):
                 return
 
 
+async def check_three_phase(failures, counters):
+    """(e) 3-phase compositions (a3 - b3, a3 + b3) built with build(name, nones_are_zeros=z): on every phase a missing
+    input counts as 0 exactly when z was asked for."""
+    from frequenz.quantities import Quantity
+    from frequenz.sdk.timeseries.formula_engine._formula_engine import FormulaBuilder, FormulaEngine3Phase
+
+    def phase_engine(name):
+        b = FormulaBuilder(name, Quantity)
+        b.push_metric(name, DummyReceiver(), nones_are_zeros=False)
+        return b.build()
+
+    for z in (False, True):
+        for op in ("+", "-"):
+            try:
+                a3 = FormulaEngine3Phase("a", Quantity, tuple(phase_engine(f"a{p}") for p in range(3)))
+                b3 = FormulaEngine3Phase("b", Quantity, tuple(phase_engine(f"b{p}") for p in range(3)))
+                top = (a3 + b3) if op == "+" else (a3 - b3)
+                eng3 = top.build("ho3", nones_are_zeros=z)
+                per_phase = [e._builder.finalize() for e in eng3._streams]  # pylint: disable=protected-access
+            except Exception as e:  # pylint: disable=broad-except
+                failures.append({"clause": "build", "detail": f"3-phase a {op} b, nones_are_zeros={z}: {type(e).__name__}: {e}"})
+                return
+            for p, (steps, fetchers) in enumerate(per_phase):
+                names = sorted(fetchers)
+                for missing in ([], [names[0]], [names[-1]], names):
+                    for mv in ([None] if not missing else MISSING):
+                        inputs = {n: (mv if n in missing else Fraction(7 if n == names[0] else 2)) for n in names}
+                        counters["evaluations"] += 1
+                        counters["ho"] += 1
+                        got = run_steps(steps, fetchers, inputs)
+                        vals = [Fraction(0) if (n in missing and z) else (UNDEF if n in missing else inputs[n]) for n in names]
+                        want = UNDEF if any(v is UNDEF for v in vals) else (vals[0] + vals[1] if op == "+" else vals[0] - vals[1])
+                        if len(names) != 2:
+                            continue
+                        if not compare(got, want):
+                            failures.append({"clause": "value", "detail": f"3-phase a {op} b built with nones_are_zeros={z}, phase {p + 1}, "
+                                                                          f"inputs {inputs}: engine {got}, expected {want}"})
+                            return
+
+
 async def check_higher_order(rng, failures, counters, budget_end):
     """Expression trees built through the operator/method API of formula engines."""
     from frequenz.quantities import Quantity
@@ -416,6 +456,8 @@ def run(req):
     # (c) the composition API
     if not failures:
         check_from_receiver(failures, counters)
+    if not failures:
+        asyncio.run(check_three_phase(failures, counters))
     if not failures:
         asyncio.run(check_higher_order(rng, failures, counters, t0 + budget))
     out = {"status": "failed" if failures else "ok", "evaluations": counters["evaluations"], "distinct": len(distinct) + counters["ho"],
